@@ -339,6 +339,20 @@ def im2col(a:np.ndarray, kernel_size, dilation=1, stride=1, padding=0, pad_value
     return out
 
 
+def _check_fold_input(a_shape:tuple, output_shape:tuple, kernel_size, dilation, stride, padding):
+    """
+    Validates the argument of the 'fold' mode of the col2im functions: for an output of shape (N, C, H, W) it must
+    have shape (N, C * kH * kW, lH * lW), where (lH, lW) is the number of windows of that geometry.
+    """
+    N, C, H, W = (int(d) for d in output_shape)
+    kH, kW = (int(k) for k in kernel_size)
+    lH, lW = get_conv2d_output_size((N, C, H, W), kernel_size, dilation, stride, padding)
+    expected = (N, C * kH * kW, lH * lW)
+    if lH < 1 or lW < 1 or tuple(a_shape) != expected:
+        raise ValueError(f"Cannot fold a tensor of shape {tuple(a_shape)} into an output of shape {(N, C, H, W)}: expected shape "
+            f"(N, C*kH*kW, L) = {expected} for kernel_size={(kH, kW)}, dilation={dilation}, stride={stride}, padding={padding}")
+
+
 def col2im(a:np.ndarray, output_shape, kernel_size, dilation, stride, padding, col_indices=None, return_indices=False):
     """
     Maps a column matrix back to the original input matrix shape.
@@ -404,6 +418,7 @@ def col2im(a:np.ndarray, output_shape, kernel_size, dilation, stride, padding, c
             H, W = output_shape
         else:
             N, C, H, W = output_shape
+        _check_fold_input(a.shape, (N, C, H, W), kernel_size, dilation, stride, padding)
     else:
         raise ValueError('Invalid shape of input tensor (should be 2 or 3-dimensional)')
         
@@ -502,6 +517,7 @@ def col2im_v2(a:np.ndarray, output_shape, kernel_size, dilation, stride, padding
             H, W = output_shape
         else:
             N, C, H, W = output_shape
+        _check_fold_input(a.shape, (N, C, H, W), kernel_size, dilation, stride, padding)
     else:
         raise ValueError('Invalid shape of input tensor (should be 2 or 3-dimensional)')
     
@@ -586,6 +602,7 @@ def col2im_fast(a:np.ndarray, output_shape, kernel_size, dilation, stride, paddi
             H, W = output_shape
         else:
             N, C, H, W = output_shape
+        _check_fold_input(a.shape, (N, C, H, W), kernel_size, dilation, stride, padding)
     else:
         raise ValueError('Invalid shape of input tensor (should be 2 or 3-dimensional)')
     
